@@ -92,6 +92,8 @@ func (rn *runner) runCase(c *Case) {
 		rn.runMatchCase(c)
 	case "params":
 		rn.runParamsCase(c)
+	case "lockdisc":
+		rn.runLockCase(c)
 	default:
 		fmt.Fprintln(os.Stderr, "unknown family", c.Fam)
 		os.Exit(2)
